@@ -5,6 +5,7 @@ BOUNDS = 'deck text: every byte string (all 256 values) of up to 4 bytes (thorou
 OUTSIDE = 'EclipseState/Schedule/SummaryConfig construction from an accepted deck, keyword-specific handlers, ParseContext policy dispatch, formatted result files, inputs longer than the bound, stack exhaustion by deep INCLUDE nesting, allocation failure'
 ASSUMPTIONS = ['line/record views are sub-views of a NUL-terminated std::string buffer (the loader appends a newline): view.end() is dereferenceable', 'operator new never fails; an allocation with a symbolic size is an object of exactly that size',
                'std::istream::read on the in-memory file leaves the destination untouched beyond the bytes available (as the standard specifies)']
+PARSE_KWS = ()          # whole-parser jobs (h_parse.cpp): enabled once the std::filesystem::path model is complete
 def jobs(tier):
     n = 4 if tier == 'quick' else 6
     out = []
@@ -26,4 +27,11 @@ def jobs(tier):
     for t, tn in ((0, 'inte'), (1, 'doub'), (2, 'logi'), (3, 'char'), (4, 'c0nn')):
         out.append(dict(name='file_array_' + tn, src='h_files.cpp', defs={'NBYTES': {0: 12, 1: 20, 2: 12, 3: 12, 4: 9}[t], 'C0ES': 5, 'ATYPE': t}, entry='h_array', tus=FT, fp='ieee', loopmax=600, maxsteps=4000000,
                         bounds='arbitrary body bytes, arbitrary 64-bit count, first record head <= 32/16/10 bytes or negative'))
+    PT = ['opm/input/eclipse/Parser/%s.cpp' % n for n in ('raw/RawKeyword', 'raw/RawRecord', 'raw/StarToken', 'ParseContext', 'ErrorGuard', 'InputErrorAction', 'ParserKeyword', 'ParserRecord', 'ParserItem', 'ParserEnums')] + [
+          'opm/input/eclipse/Deck/%s.cpp' % n for n in ('Deck', 'DeckKeyword', 'DeckRecord', 'DeckItem', 'DeckView', 'DeckTree', 'DeckValue', 'DeckOutput', 'DeckSection', 'UDAValue', 'FileDeck', 'ImportContainer')] + [
+          'opm/input/eclipse/Units/%s.cpp' % n for n in ('UnitSystem', 'Dimension')] + [
+          'opm/common/%s.cpp' % n for n in ('OpmLog/OpmLog', 'OpmLog/Logger', 'OpmLog/LogUtil', 'OpmLog/KeywordLocation', 'utility/OpmInputError', 'utility/String', 'utility/shmatch')] + ['opm/input/eclipse/Python/Python.cpp', 'opm/input/eclipse/Python/PythonInterp.cpp']
+    for kw in PARSE_KWS:
+        out.append(dict(name='parse_' + kw.lower(), src='h_parse.cpp', defs={'HN': 3 if tier == 'quick' else 4, 'KWID': {'INCLUDE': 0, 'PATHS': 1}[kw]}, entry='h_parse_builtin', tus=PT, fp='real', loopmax=2000, maxsteps=40000000, timeout=900, opts=['--ctors'],
+                        bounds='Parser(false).parseString("%s\\n" + <= 3 (thorough: 4) arbitrary bytes + "\\n")' % kw))
     return out
